@@ -235,6 +235,44 @@ def clear_targets():
     ]
 
 
+# ------------------------------------------------------------------ deps: which triggers are never tracked
+
+import mypy.server.deps as DEPS  # noqa: E402
+
+LIB_MODULES = ("builtins", "typing", "mypy_extensions", "typing_extensions")
+
+
+def setup_add_dep(I):
+    self = I.make(TObj(DEPS.DependencyVisitor), "self")
+    trig = I.make(TStr(), "trigger")
+    tgt = I.make(TStr(), "target")
+    return {"args": [self, trig, tgt], "self": self, "trigger": trig, "target": tgt, "map0": I.getattr(self, "map").t}
+
+
+def ens_add_dep(I, env, res):
+    """a dependency is dropped only for a trigger whose FIRST dotted component (the top-level module it
+    names) is one of the four library modules; every other trigger is recorded with its target"""
+    t = env["trigger"].t
+    dot = z3.StringVal(".")
+    k = z3.IndexOf(t, dot, 0)
+    first = z3.SubString(t, 1, k - 1)  # between '<' and the first '.'
+    is_lib = z3.And(z3.PrefixOf(z3.StringVal("<"), t), k >= 1, z3.Or([first == z3.StringVal(m) for m in LIB_MODULES]))
+    mty = DEP_FT[("DependencyVisitor", "map")]
+    s_, mk, accs = mty.parts()
+    m1 = I.getattr(env["self"], "map").t
+    recorded = z3.And(z3.Select(accs[0](m1), t), z3.Select(z3.Select(accs[1](m1), t), env["target"].t))
+    unchanged = m1 == env["map0"]
+    return z3.If(is_lib, unchanged, recorded)
+
+
+DEP_FT = {("DependencyVisitor", "map"): TMap(TStr(), TSet(TStr())), ("DependencyVisitor", "scope"): TAny()}
+
+
+def deps_targets():
+    return [Target("deps.add_dependency", "mypy.server.deps:DependencyVisitor.add_dependency", setup_add_dep, ensures=[("only-library-modules-are-untracked", ens_add_dep)],
+                   raises=(), field_types=DEP_FT, note="the first dotted component of a trigger names its top-level module")]
+
+
 def targets(tier):
     return [
         Target("watch.find_changed.iteration", "mypy.fswatcher:FileSystemWatcher._find_changed", setup_find_changed_iter,
@@ -242,4 +280,4 @@ def targets(tier):
                raises=(), overrides=OV, field_types=FT,
                note="one generic iteration (the loop touches only `path`'s entry and membership: the frame is part of the postcondition); "
                     "the file system is an arbitrary function; equal (size, whole-second mtime) => unchanged is mypy's documented assumption"),
-    ] + watch_set_targets() + clear_targets()
+    ] + watch_set_targets() + clear_targets() + deps_targets()
